@@ -10,7 +10,7 @@ import z3
 
 from . import core
 from .core import (
-    And, B, Cell, Col, F, I, Idx, If, Not, Or, Sum, SymBase, SymScalar, T, Unsupported, StructuralError,
+    ModelledMisalignment, And, B, Cell, Col, F, I, Idx, If, Not, Or, Sum, SymBase, SymScalar, T, Unsupported, StructuralError,
     _DType, _RowsMixin, _dtype_kind, _install_binops, cell_binop, cell_eq, count, decide, is_f, is_null_literal,
     is_t, lit_cell, ranks, same_valid, uf, before,
 )
@@ -137,9 +137,12 @@ class SymSeries(_RowsMixin, SymBase):
             return NotImplemented
         if isinstance(other, SymLabelSeries):
             raise Unsupported("series op label-series")
+        valid = None
         if isinstance(other, SymSeries):
-            if not same_valid(self.valid, other.valid) or self.prov != other.prov:
-                raise Unsupported("elementwise op between differently filtered / aligned series")
+            if self.prov != other.prov:
+                raise Unsupported("elementwise op between series over different rows")
+            if not same_valid(self.valid, other.valid):
+                valid = self._align_valid(other, op)
             oc = other.cells()
             name = self.name if self.name == other.name else None
         else:
@@ -147,9 +150,46 @@ class SymSeries(_RowsMixin, SymBase):
             oc = [c] * self.nslots
             name = self.name
         out = []
-        for a, b in zip(self.cells(), oc):
+        for k, (a, b) in enumerate(zip(self.cells(), oc)):
+            if valid is not None:
+                # label alignment (unique labels on this path): a row missing on one side is False for logical
+                # operators and NaN for arithmetic
+                va, vb = self.valid[k], other.valid[k]
+                if op in ("and_", "or_", "xor"):
+                    a = Cell(And(va, a.val), a.null, a.kind) if a.kind == "b" else a
+                    b = Cell(And(vb, b.val), b.null, b.kind) if b.kind == "b" else b
+                else:
+                    a = Cell(a.val, Or(a.null, Not(va)), a.kind)
+                    b = Cell(b.val, Or(b.null, Not(vb)), b.kind)
             a, b = (b, a) if reverse else (a, b)
             out.append(cell_binop(op, a, b))
+        res = self._with(col=Col.from_cells(out), name=name)
+        if valid is not None:
+            res = res._with(valid=valid)
+        return res
+
+    def _align_valid(self, other, op):
+        """operands are differently filtered views of the same rows: pandas aligns on labels"""
+        if op in ("lt", "le", "gt", "ge", "eq", "ne"):
+            raise Unsupported("comparison of differently filtered series (pandas raises unless identically labelled)")
+        idx = self.index_
+        if not idx.defined or idx.labels:
+            raise Unsupported("alignment on an undefined index")
+        n = self.nslots
+        union = [Or(a, b) for a, b in zip(self.valid, other.valid)]
+        differ = Or(*[z3.Xor(a, b) for a, b in zip(self.valid, other.valid)])
+        dup = []
+        for i in range(n):
+            for j in range(i + 1, n):
+                same = I(idx.vals[i]) == I(idx.vals[j])
+                same = z3.simplify(same)
+                if is_f(same):
+                    continue
+                dup.append(And(union[i], union[j], same))
+        if dup and decide(And(differ, Or(*dup))):
+            raise ModelledMisalignment("alignment of differently filtered operands with duplicate index labels")
+        return union
+
         return self._with(col=Col.from_cells(out), name=name)
 
     def _named(self, opname, other, level=None, fill_value=None, axis=0):
@@ -989,6 +1029,11 @@ class SymFrame(_RowsMixin, SymBase):
 
     def _bin(self, other, op, reverse=False):
         if isinstance(other, SymFrame):
+            if other.prov != self.prov and other.labels == self.labels and op in ("add", "sub", "mul", "truediv"):
+                # pandas aligns on the index: against a frame without rows every row of the result is NaN
+                if decide(count(other.valid) == 0):
+                    nullcol = Col.from_cells([Cell(z3.IntVal(0), T, "f")] * self.nslots)
+                    return self._with(cols=[(k, nullcol) for k, _ in self.cols])
             if other.labels != self.labels or other.prov != self.prov or not same_valid(self.valid, other.valid):
                 raise Unsupported("frame op frame with different columns / alignment")
             cols = []
@@ -997,12 +1042,20 @@ class SymFrame(_RowsMixin, SymBase):
                 cols.append((k, (y._bin(x, op) if reverse else x._bin(y, op)).col))
             return self._with(cols=cols)
         if isinstance(other, SymLabelSeries):
-            if sorted(map(str, other.labels)) != sorted(map(str, self.labels)):
-                raise Unsupported("frame op label-series with different labels")
+            if len(set(self.labels)) != len(self.labels) or len(set(other.labels)) != len(other.labels):
+                raise StructuralError("frame op label-series with duplicated labels")
+            same = list(map(str, other.labels)) == list(map(str, self.labels))
+            labels = self.labels if same else sorted(set(self.labels) | set(other.labels), key=str)
             cols = []
-            for k, c in self.cols:
-                s = SymSeries(k, c, **self._row_attrs())
-                cols.append((k, s._bin(other[k], op, reverse).col))
+            nullcol = Col.from_cells([Cell(z3.IntVal(0), T, "f")] * self.nslots)
+            for k in labels:
+                if k in self.labels and k in other.labels:
+                    s = SymSeries(k, self.col(k), **self._row_attrs())
+                    cols.append((k, s._bin(other[k], op, reverse).col))
+                else:
+                    if op in ("lt", "le", "gt", "ge", "eq", "ne", "and_", "or_", "xor"):
+                        raise Unsupported("comparison/logical frame op label-series with different labels")
+                    cols.append((k, nullcol))
             return self._with(cols=cols)
         if isinstance(other, (SymSeries, SymIndex)):
             raise Unsupported("frame op row-series (pandas aligns on columns)")
@@ -1192,9 +1245,22 @@ core.SymSeries, core.SymFrame, core.SymLabelSeries, core.SymIndex = SymSeries, S
 
 # ---------------------------------------------------------------------------------------------- concat
 
+def _from_empty_pandas(o):
+    if isinstance(o, pd.DataFrame) and len(o) == 0:
+        kinds = []
+        for c in o.columns:
+            k = o[c].dtype.kind if not isinstance(o[c], pd.DataFrame) else "f"
+            kinds.append("b" if k == "b" else ("f" if k == "f" else "i"))
+        return SymFrame([(c, Col(k, [])) for c, k in zip(o.columns, kinds)], [], Idx([], o.index.name, True), [], None)
+    if isinstance(o, pd.Series) and len(o) == 0:
+        k = o.dtype.kind
+        return SymSeries(o.name, Col("b" if k == "b" else ("f" if k == "f" else "i"), []), [], Idx([], o.index.name, True), [], None)
+    return o
+
+
 def sym_concat(objs, ignore_index=False, axis=0, join="outer", **kw):
     """model of pandas.concat / dask _concat / methods.concat for symbolic pieces (axis 0)"""
-    objs = [o for o in objs if o is not None]
+    objs = [_from_empty_pandas(o) for o in objs if o is not None]
     if not objs:
         raise Unsupported("concat of nothing")
     if axis not in (0, "index"):
